@@ -66,7 +66,11 @@ def glob_shapes(project, entry, rng):
     full = entry_path(entry, py) if is_file else entry_path(entry)
     last = entry[-1] + (".py" if (is_file and py) else (".txt" if is_file else ""))
     return {"text": full, "*text": "*" + last, "text*": full + "*", "*text*": "*" + last + "*",
-            "*/text": "*/" + last, "*text-part": "*" + last[max(0, len(last) // 2):]}
+            "*/text": "*/" + last, "*text-part": "*" + last[max(0, len(last) // 2):],
+            # the entry's bare name: a pattern without a leading star is matched from the START of the path, so these
+            # two match no path at all; and the separator directly after the name: '*name/*' matches what lies below a
+            # directory of that name but not the directory itself, '*name/' matches nothing
+            "name": last, "name*": last + "*", "*text/*": "*" + last + "/*", "*text/": "*" + last + "/"}
 
 
 # ------------------------------------------------------------------------------------------------ episodes
